@@ -167,3 +167,21 @@ CHECKS["C06"] = {
                   "errors must be error values (no panic), and every emitted proof must be accepted by the library verifier and the reference verifier.",
     "level_note": "Held on the executed pairs. Trusted: harness case construction, refbp.",
 }
+
+CHECKS["C07"] = {
+    "title": "Minimum-value promises mean value >= promise, and bind the proof",
+    "level": "exploration",
+    "technique": "runtime monitoring: per-position promise substitution at proving and at verification time against an arithmetic oracle; refusal of oversized promises observed before any group arithmetic (free-module MSM log)",
+    "design_ref": "DESIGN.md section 4 C07",
+    "legs": [{"name": "fm", "shards": 16}, {"name": "ris", "shards": 16}],
+    "rule": "prover cases: (instance, position j, promise p in {None, 0, v, v-1, v+1, v/3, 2^n-1, 2^n, 2^n+1, u64::MAX}) inside mixed Some/None vectors, expected Ok iff p <= v; "
+            "verifier cases: proof made under vector p, verified under p with one position substituted by each candidate (+ base, base as Some, base+-1), in two verifying modes, "
+            "expected accept iff value-wise equal (None == 0); distinct = distinct (group, instance, position, candidate, mode)",
+    "require": {"quick": {"prover_promise_cases": 3000, "verifier_substitutions": 12000, "verifier_valuewise_equal_substitutions": 3000, "verifier_promise_does_not_fit": 2000},
+                "thorough": {"prover_promise_cases": 50000, "verifier_substitutions": 200000, "verifier_valuewise_equal_substitutions": 50000, "verifier_promise_does_not_fit": 30000}},
+    "assumptions": COMMON_ASSUMPTIONS + ["the H-scalar half and the transcript half of the promise handling are observed separately by C02 (coefficient of the value generator) and C04 (promise appended before y); this check decides the end-to-end behaviour"],
+    "level_text": "Runs the real prover with each boundary promise at each sampled position of mixed promise vectors (accept iff promise <= value) and re-verifies honest proofs under "
+                  "every single-position substitution of the promise vector (accept iff value-wise equal, None == Some(0)); promises that do not fit the bit length must be refused, "
+                  "and over the free-module group the monitor confirms the refusal happens before the final check is evaluated.",
+    "level_note": "Held on the executed substitutions. Trusted: harness arithmetic oracle (u64 comparisons).",
+}
